@@ -74,9 +74,13 @@ theorem stop_idle (s : St) (e : Bool) : (s.stop e).errC = false ∨ (s.stop e).s
 /-- `stop` re-establishes the `run` clause by itself. -/
 theorem stop_comp' (s : St) (e : Bool) (hcc : s.completeCClosed = s.completed)
     (hall : s.completed = true → s.bf = none ∨ ∃ b, s.bf = some b ∧ allTrue b = true) : CompInv (s.stop e) := by
-  refine ⟨by simpa using hcc, by simpa using hall, ?_⟩
-  intro h1 h2
-  rcases stop_idle s e with h' | h' <;> simp_all
+  refine ⟨by simpa using hcc, ?_, ?_⟩
+  · intro hc
+    rcases stop_bf s e with h | h
+    · rw [h]; exact hall (by simpa using hc)
+    · exact Or.inl h
+  · intro h1 h2
+    rcases stop_idle s e with h' | h' <;> simp_all
 
 theorem stop_comp (s : St) (e : Bool) (h : CompInv s) : CompInv (s.stop e) := stop_comp' s e h.cc h.all
 
@@ -274,14 +278,21 @@ theorem handleAllocationDone_comp (m : M) (ex mi : Bool) (h : CompInv m.1) :
     CompInv (handleAllocationDone m ex mi).1 := by
   rw [handleAllocationDone_eq]
   -- the intermediate state may lack the `run` clause: carry the first two
-  have hcc : (hadInstall m).1.completeCClosed = (hadInstall m).1.completed := by simpa using h.cc
-  have hall : (hadInstall m).1.completed = true →
-      (hadInstall m).1.bf = none ∨ ∃ b, (hadInstall m).1.bf = some b ∧ allTrue b = true := by
-    simpa using h.all
+  have hcc : (hadForget (hadInstall m) mi).1.completeCClosed = (hadForget (hadInstall m) mi).1.completed := by
+    simpa using h.cc
+  have hall : (hadForget (hadInstall m) mi).1.completed = true →
+      (hadForget (hadInstall m) mi).1.bf = none ∨ ∃ b, (hadForget (hadInstall m) mi).1.bf = some b ∧ allTrue b = true := by
+    intro hc
+    have := h.all (by simpa using hc)
+    unfold hadForget
+    simp only [onSt_fst]
+    split
+    · exact Or.inl rfl
+    · simpa using this
   dsimp only
   split
   · next b hb =>
-    have h0 : CompInv (hadInstall m).1 := CompInv.of_bf hcc hall (by rw [hb]; rfl)
+    have h0 : CompInv (hadForget (hadInstall m) mi).1 := CompInv.of_bf hcc hall (by rw [hb]; rfl)
     repeat' split
     · exact hadTrust_comp _ _ hb h0
     · exact hadFresh_comp _ h0
